@@ -8,7 +8,7 @@ WT=/tmp/seedtest
 if [ ! -d $WT ]; then git -C /repo worktree add --detach $WT HEAD >/dev/null 2>&1; fi
 git -C $WT checkout -q --detach $(git -C /repo rev-parse HEAD) 2>/dev/null
 git -C $WT checkout -q -- . ; git -C $WT clean -fdq
-if ! git -C $WT apply "$PATCH"; then echo "PATCH DOES NOT APPLY"; exit 2; fi
+if ! git -C $WT apply "$PATCH" 2>/dev/null && ! git -C $WT apply --3way "$PATCH"; then echo "PATCH DOES NOT APPLY"; exit 2; fi
 cd /verif
 for c in "$@"; do
   VERIF_REPO=$WT VERIF_TARGET=/tmp/seedtest-target ./check $c --tier quick > .build/logs/seed_$c.log 2>&1
